@@ -112,6 +112,14 @@ def main():
         undec = [c for c, v in res.get("checks", {}).items() if v["rc"] == 2]
         drift = [c for c, v in res.get("checks", {}).items() if any(l.startswith("MECHANISM-DRIFT") for l in v["lines"])]
         res["alarms"], res["undecided"], res["drift"] = alarms, undec, drift
+        try:                      # a hand-written note about this change survives a re-run
+            prev = json.load(open(os.path.join(dst, "meta.json")))
+            if prev.get("note"):
+                res["note"] = prev["note"]
+            for k in ("summary", "why_safe", "observable_differences"):
+                res[k] = res.get(k) or prev.get(k)
+        except Exception:
+            pass
         json.dump(res, open(os.path.join(dst, "meta.json"), "w"), indent=1)
         print("%s-%s applies=%s tests=%s alarms=%s undecided=%s drift=%s" % (n, r, res.get("applies"), res.get("tests_pass"), alarms, undec, drift), flush=True)
 
